@@ -33,6 +33,97 @@ def candidates(text):
     return out
 
 
+def syntax_candidates(text):
+    """Further behaviour-preserving rewrites: `x += y` -> `x = x + y` (and -=, *=), `for p in &mut c` -> `for p in c.iter_mut()`,
+    `for p in &c` -> `for p in c.iter()`, and `if c { A } else { B }` -> `if !(c) { B } else { A }` (blocks exchanged)."""
+    out = []
+    lines = text.split('\n')
+    n = len(lines)
+    for i, l in enumerate(lines):
+        st = l.strip()
+        if re.match(r'^(pub )?mod tests? \{', st):
+            break
+        if not l.startswith('\t\t') or st.startswith(('//', '#', '*', '/*')):
+            continue
+        m = re.match(r'^(\s*)([\w\.\*\[\]\(\)]+) (\+|-|\*)= (.+);$', l)
+        if m and '==' not in l and not m.group(2).startswith('*'):
+            out.append(((i, i), ['%s%s = %s %s (%s);' % (m.group(1), m.group(2), m.group(2), m.group(3), m.group(4))], 'compound-assign'))
+        m = re.match(r'^(\s*for .* in )&mut ([\w\.]+) \{$', l)
+        if m:
+            out.append(((i, i), ['%s%s.iter_mut() {' % (m.group(1), m.group(2))], 'for-iter_mut'))
+        m = re.match(r'^(\s*for .* in )&([\w\.]+) \{$', l)
+        if m and not m.group(2).startswith('mut'):
+            out.append(((i, i), ['%s%s.iter() {' % (m.group(1), m.group(2))], 'for-iter'))
+        m = re.match(r'^(\s*)if (?!let )(.+) \{$', l)
+        if m and '&&' not in m.group(2) and '||' not in m.group(2):
+            ind = m.group(1)
+            # find `<ind>} else {` and the closing `<ind>}`
+            j = i + 1
+            while j < n and not lines[j].startswith(ind + '}'):
+                j += 1
+            if j < n and lines[j] == ind + '} else {':
+                k = j + 1
+                while k < n and not lines[k].startswith(ind + '}'):
+                    k += 1
+                if k < n and lines[k] in (ind + '}', ind + '};'):
+                    prev = lines[i - 1].strip() if i > 0 else ''
+                    if not prev.endswith('else') and not lines[i].strip().startswith('} else'):
+                        new = ['%sif !(%s) {' % (ind, m.group(2))] + lines[j + 1:k] + [ind + '} else {'] + lines[i + 1:j] + [lines[k]]
+                        out.append(((i, k), new, 'if-else-swap'))
+    return out
+
+
+def rename_candidates(text):
+    """[( (start_line, end_line), new_lines, op )]: one parameter or `let` local of a function renamed throughout the function."""
+    out = []
+    lines = text.split('\n')
+    i = 0
+    while i < len(lines):
+        l = lines[i]
+        if re.match(r'^(pub )?mod tests? \{', l.strip()):
+            break
+        m = re.match(r'^(\s*)(?:pub(?:\([a-z]+\))? )?(?:const )?fn (\w+)', l)
+        if not m:
+            i += 1
+            continue
+        # find the body: first line at or after i that ends with '{' at the fn's indentation, then the closing '}' at that indentation
+        ind = m.group(1)
+        j = i
+        while j < len(lines) and not lines[j].rstrip().endswith('{'):
+            if lines[j].rstrip().endswith(';'):
+                break
+            j += 1
+        if j >= len(lines) or not lines[j].rstrip().endswith('{'):
+            i += 1
+            continue
+        k = j + 1
+        while k < len(lines) and lines[k] != ind + '}':
+            k += 1
+        if k >= len(lines):
+            i += 1
+            continue
+        sig = ' '.join(x.strip() for x in lines[i:j + 1])
+        body = lines[i:k + 1]
+        names = []
+        pm = re.search(r'fn \w+(?:<[^(]*>)?\((.*)\)', sig)
+        if pm:
+            for part in re.split(r',(?![^<(\[]*[>)\]])', pm.group(1)):
+                mm = re.match(r'\s*(?:mut )?([a-z_][a-z0-9_]*)\s*:', part)
+                if mm and mm.group(1) not in ('self', '_'):
+                    names.append(('param', mm.group(1)))
+        for x in body:
+            mm = re.match(r'^\s*let (?:mut )?([a-z_][a-z0-9_]*)\b\s*(?::|=)', x)
+            if mm and mm.group(1) != '_' and ('local', mm.group(1)) not in names and ('param', mm.group(1)) not in names:
+                names.append(('local', mm.group(1)))
+        for kind, nm in names:
+            new = [re.sub(r'(?<![\w.])%s(?![\w(!])' % re.escape(nm), nm + '_r', x) if not x.strip().startswith('//') else x for x in body]
+            # do not touch field accesses (`.name`), struct-literal shorthand is left to the compiler to reject
+            if new != body:
+                out.append(((i, k), new, 'rename-%s:%s' % (kind, nm)))
+        i = k + 1
+    return out
+
+
 def run(args):
     slot, mu = args
     d = tempfile.mkdtemp(prefix='kvequiv-')
@@ -46,10 +137,13 @@ def run(args):
                 shutil.copy(s, t)
         f = os.path.join(d, SRC, mu['file'])
         lines = open(f).read().split('\n')
-        lines[mu['line']] = mu['new']
+        if 'block' in mu:
+            lines[mu['line']:mu['end'] + 1] = mu['block']
+        else:
+            lines[mu['line']] = mu['new']
         open(f, 'w').write('\n'.join(lines))
         env = dict(os.environ, KV_REPO=d, KV_EVIDENCE=os.path.join(d, 'ev'), KV_NO_SELFTEST='1', KV_KEEP_FACTS='1',
-                   KV_TARGET=os.path.join(VERIF, '.cache', 'target-scratch-%d' % (50 + slot)))
+                   KV_TARGET=os.path.join(VERIF, '.cache', 'target-scratch-%d' % slot))
         alarms = {}
         for p in PROPS:
             x = subprocess.run([os.path.join(VERIF, 'kv'), 'check', p], env=env, stdout=subprocess.PIPE, stderr=subprocess.STDOUT, text=True)
@@ -72,14 +166,29 @@ def main():
     nw = int(opt('--workers', '8'))
     out = opt('--out', '/tmp/equiv.jsonl')
     random.seed(1)
+    mode = opt('--mode', 'commute')
+    only = opt('--only').split(',') if opt('--only') else None
     mus = []
     for f in sorted(glob.glob('/repo/%s/**/*.rs' % SRC, recursive=True)):
         fn = f[len('/repo/%s/' % SRC):]
         if fn.endswith('test.rs') or '/test' in fn or fn in ('test_helpers.rs', 'lib.rs') or 'wasm' in fn:
             continue
         text = open(f).read()
+        if mode == 'syntax':
+            for (i, k), new, op in syntax_candidates(text):
+                mus.append({'file': fn, 'line': i, 'end': k, 'block': new, 'old': text.split('\n')[i], 'new': op, 'op': op})
+            continue
+        if mode == 'rename':
+            if only and not any(fn.startswith(o) for o in only):
+                continue
+            for (i, k), new, op in rename_candidates(text):
+                mus.append({'file': fn, 'line': i, 'end': k, 'block': new, 'old': text.split('\n')[i], 'new': op, 'op': op})
+            continue
         for i, new, op in candidates(text):
             mus.append({'file': fn, 'line': i, 'old': text.split('\n')[i], 'new': new, 'op': op})
+    if opt('--replay'):
+        want = set((r['file'], r['line'], r['op']) for r in map(json.loads, open(opt('--replay'))) if r.get('status') == 'ALARM')
+        mus = [m for m in mus if (m['file'], m['line'], m['op']) in want]
     random.shuffle(mus)
     mus = mus[:mx]
     print('%d equivalent edits' % len(mus), flush=True)
@@ -101,7 +210,7 @@ def main():
             fo.write(json.dumps(r) + '\n')
             fo.flush()
             if r['status'] == 'ALARM':
-                print('ALARM %s:%d [%s] %s  ->  %s   %s' % (r['file'], r['line'] + 1, r['op'], r['old'].strip()[:60], r['new'].strip()[:60], json.dumps(r['alarms'])[:200]), flush=True)
+                print('ALARM %s:%d [%s] %s  ->  %s   %s' % (r['file'], r['line'] + 1, r['op'], r['old'].strip()[:60], str(r['new']).strip()[:60], json.dumps(r['alarms'])[:300]), flush=True)
     print(stats)
 
 
